@@ -70,6 +70,9 @@ func main() {
 			rep.Count(fmt.Sprintf("lifecycle:export-import:%d-extra-pairs", lh.Extra))
 		}
 	}
+	if probeNote != "" {
+		rep.Notes = append(rep.Notes, probeNote)
+	}
 	m := setupMixed(c, x)
 	// the machine-checked witness of P_Erc20.v first, then generated programs
 	itemsB = append(itemsB, m.run(&MixCase{N: 100, P: 40, Q: 25, Prog: []MInstr{{K: "Transfer", X: 30}, {K: "BridgeCall", X: 50}}, Seed: -1}, rep))
@@ -110,6 +113,7 @@ type IOp struct {
 	Alias   int      `json:"alias,omitempty"`
 	Owner   int      `json:"owner,omitempty"`
 	CID     int      `json:"contract_id,omitempty"`
+	Rebuild bool     `json:"rebuilds_alias_index,omitempty"` // ExportImport: the probed code fact the model follows
 	OK      bool     `json:"ok"`
 	Err     string   `json:"err,omitempty"`
 	Dump    []string `json:"-"`
@@ -120,6 +124,36 @@ type IHistory struct {
 	Own   bool  `json:"own_chain,omitempty"`   // lifecycle history: runs on a chain of its own (export/import needs committed state)
 	Extra int   `json:"extra_pairs,omitempty"` // scale: that many further module-owned pairs registered (through the keeper) first
 	Ops   []IOp `json:"ops"`
+}
+
+// exportRebuilds: the code fact the model follows (M_Erc20.IExportImport rebuild): does InitGenesis of the code under check
+// rebuild the alias index from the bank metadata?  Probed once per run on the real application: a chain of its own, one coin
+// registered with one alias, real export + import, then the alias is looked up.
+var probedRebuild *bool
+var probeNote string
+
+func exportRebuilds() bool {
+	if probedRebuild != nil {
+		return *probedRebuild
+	}
+	res := false
+	probedRebuild = &res
+	c := lib.NewChain(lib.Seed()*131+17, 1, nil)
+	lib.Must(c.NextBlock())
+	md := fxtypes.GetCrossChainMetadataManyToOne("probe token", "PRB", 18, "probealias")
+	if _, err := c.App.Erc20Keeper.RegisterNativeCoin(c.Ctx, md); err != nil {
+		probeNote = "probe registration failed: " + err.Error()
+		return res
+	}
+	nc, err := c.ExportImport()
+	if err != nil {
+		probeNote = "probe export/import failed: " + err.Error()
+		return res
+	}
+	d, found := nc.App.Erc20Keeper.GetAliasDenom(nc.Ctx, "probealias")
+	res = found && d == md.Base
+	probeNote = fmt.Sprintf("code fact probed on the real application: InitGenesis rebuilds the erc20 alias index from the bank metadata = %v", res)
+	return res
 }
 
 func lifecycleHistories() []*IHistory {
@@ -196,7 +230,7 @@ func (o IOp) Coq() string {
 	case "Remove":
 		return fmt.Sprintf("(IRemove %d)", o.Denom)
 	case "ExportImport":
-		return "IExportImport"
+		return "(IExportImport " + lib.Bool(o.Rebuild) + ")"
 	case "Fund":
 		return fmt.Sprintf("(* fund %d *)", o.Denom)
 	}
@@ -687,6 +721,7 @@ func (w *idxWorld) exec(o *IOp) error {
 		if !w.own {
 			return errors.New("export/import needs a chain of its own")
 		}
+		o.Rebuild = exportRebuilds()
 		fail := func(sig, what string) {
 			w.rep.Fail(lib.Failure{Kind: "monitor", What: what, Sig: sig, Replay: map[string]interface{}{"part": "index", "history": w.h}})
 		}
